@@ -5,6 +5,7 @@ import Driver.C16
 import Driver.C07
 import Driver.C20
 import Driver.C01
+import Driver.C02
 open AITB
 
 def handleLine (line : String) : String :=
@@ -18,6 +19,7 @@ def handleLine (line : String) : String :=
   | "C07" :: rest => DrvC07.handle rest
   | "C20" :: rest => DrvC20.handle rest
   | "C01" :: rest => DrvC01.handle rest
+  | "C02" :: rest => DrvC02.handle rest
   | _ => "bad-op"
 
 partial def loop (h : IO.FS.Stream) (out : IO.FS.Stream) : IO Unit := do
